@@ -338,7 +338,10 @@ add_using(CPPUsing *using_decl, CPPScope *global_scope,
   if (using_decl->_full_namespace) {
     CPPScope *scope =
       using_decl->_ident->find_scope(this, global_scope);
-    if (scope != nullptr) {
+    if (scope == this) {
+      // "using namespace ns;" within ns itself is a no-op; recording it would
+      // make every failed lookup in this scope recurse forever.
+    } else if (scope != nullptr) {
       _using.insert(scope);
     } else {
       if (error_sink != nullptr) {
